@@ -54,7 +54,11 @@ FnExprs(t) ==
              FnN("hmax", <<p, q>>), FnN("hmin", <<p, q>>),
              FnN("hmin", <<x, y, LitI(1), Fn1("neg", x)>>), FnN("hmax", <<x, y, LitI(1), Fn1("neg", x)>>),
              FnN("hmin", <<LitI(7), Fn1("neg", y), y, x, LitI(3)>>), FnN("hmax", <<LitI(-7), Fn1("neg", y), y, x, LitN>>),
-             FnN("coalesce", <<LitN, LitN, y, x>>), FnN("hsum", <<x, y, x, y>>)>>
+             FnN("coalesce", <<LitN, LitN, y, x>>), FnN("hsum", <<x, y, x, y>>),
+             \* a rounded integer is an integer: integer operators on it; the one-argument forms of the variadic functions
+             Fn2("floordiv", Fn2("round", Fn2("mul", x, LitI(9)), LitI(-1)), LitI(3)), Fn2("mod", Fn2("round", Fn2("mul", x, LitI(9)), LitI(-1)), LitI(7)),
+             Fn2("floordiv", Fn2("round", x, LitI(1)), LitI(2)), Fn2("floordiv", Fn2("round", x, LitI(0)), y),
+             FnN("coalesce", <<x>>), FnN("hmax", <<x>>), FnN("hmin", <<y>>), FnN("hsum", <<x>>)>>
         \* case expressions: first true branch wins, null without a match.  The replayer keeps ONE python object per
         \* expression (as a user who stores `first = when(c).then(v)` in a variable does) and derives the longer case
         \* expression from the object of its prefix: the two-branch form comes first, its prefix is evaluated after it
@@ -80,7 +84,11 @@ FnExprs(t) ==
              Cast(f, "int"), Cast(x, "float"), Cast(p, "int"), Cast(Fn2("truediv", x, LitI(2)), "int"),
              Cast(Fn1("neg", f), "int"), Fn3("clip", f, LitI(-1), LitI(1)),
              Fn2("round", f, LitI(0)), Fn2("round", Fn2("add", f, Fn2("truediv", x, LitI(8))), LitI(0)), Fn2("round", x, LitI(0)),
-             Fn2("pow", x, LitI(2)), Fn2("pow", f, LitI(3)), Fn2("pow", x, LitI(0)), Fn2("pow", f, x)>>
+             Fn2("pow", x, LitI(2)), Fn2("pow", f, LitI(3)), Fn2("pow", x, LitI(0)), Fn2("pow", f, x),
+             \* the nan / inf tests on finite values and null, alone and inside boolean operators and case conditions
+             Fn1("is_nan", f), Fn1("is_not_nan", f), Fn1("is_inf", f), Fn1("is_not_inf", f),
+             Fn2("or", Fn1("is_nan", f), Fn1("is_inf", f)), Fn2("and", Fn1("is_not_nan", f), p), Fn1("not", Fn1("is_inf", f)),
+             Case1D(Fn2("or", Fn1("is_nan", f), Fn1("is_inf", f)), LitI(1), LitI(0)), Fn1("is_nan", Fn2("truediv", x, LitI(2)))>>
         \* transcendental functions: null-ness, type and domain from the specification, values back end against back end
         \o Flat(MapS(<<"exp", "log", "log10", "sqrt", "cbrt", "sin", "cos", "tan", "asin", "acos", "atan">>, LAMBDA o :
               <<Fn1(o, f), Fn1(o, Fn2("truediv", x, LitI(8)))>>))
@@ -205,6 +213,10 @@ CastExprs(t) ==
       \* an explicit cast is never a no-op because the operand would convert implicitly: generic Float target, null literal
       CastG(c("i"), "float"), Cast(CastG(c("i"), "float"), "str"), Cast(CastG(LitI(7), "float"), "str"), Cast(Cast(c("i"), "float"), "str"),
       Cast(Cast(LitN, "int"), "str"), Fn2("add", Cast(LitN, "int"), c("i")),
+      \* a Float expression fed from an integer column / literal is a float everywhere (its text has a decimal point)
+      Cast(Fn2("fill_null", c("i"), LitF(1, 2)), "str"), Cast(FnN("coalesce", <<c("i"), c("f")>>), "str"), Cast(Fn3("clip", c("f"), LitI(0), LitI(2)), "str"),
+      Cast(Case1D(Fn2("gt", c("i"), LitI(0)), c("i"), c("f")), "str"), Cast(Case1D(Fn2("gt", c("i"), LitI(0)), LitI(1), LitF(5, 2)), "str"),
+      Cast(FnN("hmax", <<c("i"), c("f")>>), "str"), Cast(Fn2("mul", Case1D(Fn2("gt", c("i"), LitI(0)), c("i"), c("f")), LitI(2)), "str"),
       Fn1("dt_year", c("d")), Fn1("dt_month", c("d")), Fn1("dt_day", c("d")), Fn1("dt_year", c("dt")), Fn1("dt_month", c("dt")), Fn1("dt_day", c("dt")),
       Fn1("dt_hour", c("dt")), Fn1("dt_minute", c("dt")), Fn1("dt_second", c("dt")), Fn1("dt_year", Cast(c("d"), "datetime")),
       \* constant operands (python literals)
